@@ -26,8 +26,10 @@ class C10(C03):
     def corpus(self):
         return []
 
-    def probes10(self):
-        env0s = [[], [[b(v), b(b"/usr/x")] for v in VARS], [[b(VARS[0]), []]]]
+    def probes10(self, layer_dirs=False):
+        env0s = [[], [[b(v), b(b"/usr/x")] for v in VARS], [[b(VARS[0]), []]]] if not layer_dirs else [[], [[b(v), b(b"/usr/x")] for v in VARS], [[b(VARS[0]), []]],
+                 # a starting environment that already lists the layer's own directories (a layer env applied again)
+                 [[b(VARS[0]), b(b"/usr/local/x:$ROOT/r/layer/bin")], [b(VARS[2]), b(b"$ROOT/r/layer/lib")], [b(VARS[4]), b(b"$ROOT/r/layer/pkgconfig:/p")]]]
         scopes = [scope_json("all"), scope_json("build"), scope_json("launch"), scope_json("process", b"web")]
         return [{"scope": s, "env0": e} for s in scopes for e in env0s]
 
@@ -56,8 +58,9 @@ class C10(C03):
                 ins.append({"s": s, "b": rng.choice(c04mod.BEHS), "n": b(rng.choice(VARS)),
                             "v": b(rng.choice([b"/opt/y", b"", b":"] + ([] if len(cases) % 4 == 1 else          # (not in the dot_dir runs: they mark the canonical spelling)
                                                                             [b"$ROOT/r/layer/bin", b"$ROOT/r/layer/lib", b"$ROOT/r/layer/pkgconfig"])))})
-            steps = [{"op": "write", "ins": ins}, {"op": "read", "probes": self.probes10()}, {"op": "read_write"},
-                     {"op": "read_write"}, {"op": "read", "probes": self.probes10()[3:9]}]
+            ld = len(cases) % 4 != 1      # (not in the dot_dir runs: they mark the canonical spelling)
+            steps = [{"op": "write", "ins": ins}, {"op": "read", "probes": self.probes10(ld)}, {"op": "read_write"},
+                     {"op": "read_write"}, {"op": "read", "probes": self.probes10(ld)[3:9]}]
             case = {"init": self.base_tree(extra), "dir": LAYER, "steps": steps, "assign": list(assign),
                     "dot_dir": len(cases) % 4 == 1}
             if len(cases) % 4 == 3:
